@@ -23,6 +23,7 @@ Definition sumf {A} (f : A -> Q) (l : list A) : Q := fold_right (fun x acc => qa
 Definition b2q (b : bool) : Q := if b then 1 else 0.            (* active.astype(np.float64) *)
 Definition nq (n : nat) : Q := inject_Z (Z.of_nat n).
 Definition memn (x : nat) (l : list nat) : bool := existsb (Nat.eqb x) l.
+Definition pct (x : Q) : Q := qdiv x 100.
 
 (* ---------- element tables *)
 Record load := mkLoad {
@@ -98,11 +99,13 @@ Definition Sload (n : net) (k : nat) (v : Q) : C :=
   else mkC (PD n k) (QD n k).
 
 Definition gens_on_at (n : net) (k : nat) : list gen := filter (fun g => Nat.eqb (g_bus g) k && g_on g) (gens n).
-(* Sbus_k = (Cg*(PG + jQG) - S_load)/baseMVA ; only the real part of the generation enters the NR equations of
-   PV buses and nothing of it at REF buses, QG of the gen rows is passed as an input [qg_in] for completeness *)
-Definition Sbus (n : net) (k : nat) (v : Q) (qg_in : Q) : C :=
-  let s := Sload n k v in
-  mkC (qdiv (qsub (sumf g_pg (gens_on_at n k)) (re s)) (base n)) (qdiv (qsub qg_in (im s)) (base n)).
+(* Newton mismatch of bus k scaled to MVA:  baseMVA * (V conj(Ybus V) - Sbus)_k  with
+   Sbus = (Cg*(PG + jQG) - S_load(|V|))/baseMVA  (makeSbus.py:16-20, newtonpf.py _evaluate_Fx).
+   The P part is an NR equation at PV and PQ buses, the Q part at PQ buses (no generator in service). *)
+Definition mism_p (n : net) (k : nat) (v : Q) (sinj : C) : Q :=
+  qsub (qmul (re sinj) (base n)) (qsub (sumf g_pg (gens_on_at n k)) (re (Sload n k v))).
+Definition mism_q (n : net) (k : nat) (v : Q) (sinj : C) : Q :=
+  qadd (qmul (im sinj) (base n)) (im (Sload n k v)).
 
 (* ---------- pfsoln.py *)
 Definition EPS : Q := 1 # 4503599627370496.       (* finfo(float).eps = 2^-52 *)
@@ -159,7 +162,6 @@ Definition PD_after (n : net) (ref : list nat) (k : nat) (sinj : C) : Q :=
 
 (* ---------- results_bus.py *)
 (* :142-187 *)
-Definition pct (x : Q) : Q := qdiv x 100.
 Definition res_load_p (n : net) (l : load) (v : Q) : Q :=
   let cz := pct (l_czp l) in let ci := pct (l_cip l) in
   let cp := qsub 1 (qadd cz ci) in
@@ -187,26 +189,57 @@ Definition res_sh_q (s : shel) (v : Q) : Q :=
 Definition vof (vs : list Q) (k : nat) : Q := nth k vs 1.
 Definition sof (ss : list C) (k : nat) : C := nth k ss C0.
 
-(* _get_p_q_results + _get_shunt_results + _get_gen_results -> res_bus.p_mw/q_mvar of pandapower bus pb:
-   arrays are stacked per element table and summed by pandapower bus *)
+(* _get_p_q_results (:409-443) + _get_shunt_results (:521-588) + _get_gen_results (results_gen.py:25-52)
+   -> res_bus.p_mw/q_mvar of pandapower bus pb.  The impl stacks (bus, value) arrays table by table -- for
+   voltage dependent loads the constant-power part of all loads first, then the voltage dependent part of all
+   loads (results_bus.py:160-186) -- and sums them by pandapower bus (_sum_by_group). *)
+Definition load_const_p (l : load) : Q :=
+  qmul (qmul (qmul (l_p l) (l_sc l)) (b2q (l_on l))) (qsub 1 (qadd (pct (l_czp l)) (pct (l_cip l)))).
+Definition load_vdep_p (l : load) (v : Q) : Q :=
+  qmul (qmul (qmul (l_p l) (l_sc l)) (b2q (l_on l))) (qadd (qmul (pct (l_cip l)) v) (qmul (pct (l_czp l)) (qmul v v))).
+Definition load_const_q (l : load) : Q :=
+  qmul (qmul (qmul (l_q l) (l_sc l)) (b2q (l_on l))) (qsub 1 (qadd (pct (l_czq l)) (pct (l_ciq l)))).
+Definition load_vdep_q (l : load) (v : Q) : Q :=
+  qmul (qmul (qmul (l_q l) (l_sc l)) (b2q (l_on l))) (qadd (qmul (pct (l_ciq l)) v) (qmul (pct (l_czq l)) (qmul v v))).
+Definition stack_p (n : net) (vs : list Q) : list (nat * Q) :=
+  (if vdl n then map (fun l => (l_pbus l, load_const_p l)) (loads n) ++
+                 map (fun l => (l_pbus l, load_vdep_p l (vof vs (l_bus l)))) (loads n)
+   else map (fun l => (l_pbus l, qmul (qmul (l_p l) (l_sc l)) (b2q (l_on l)))) (loads n)) ++
+  map (fun e => (e_pbus e, if e_gen e then qopp (res_pq_p e) else res_pq_p e)) (pqs n) ++
+  map (fun s => (s_pbus s, res_sh_p s (vof vs (s_bus s)))) (shunts n).
+Definition stack_q (n : net) (vs : list Q) : list (nat * Q) :=
+  (if vdl n then map (fun l => (l_pbus l, load_const_q l)) (loads n) ++
+                 map (fun l => (l_pbus l, load_vdep_q l (vof vs (l_bus l)))) (loads n)
+   else map (fun l => (l_pbus l, qmul (qmul (l_q l) (l_sc l)) (b2q (l_on l)))) (loads n)) ++
+  map (fun e => (e_pbus e, if e_gen e then qopp (res_pq_q e) else res_pq_q e)) (pqs n) ++
+  map (fun s => (s_pbus s, res_sh_q s (vof vs (s_bus s)))) (shunts n).
+Definition sum_group (pb : nat) (l : list (nat * Q)) : Q := sumf snd (filter (fun x => Nat.eqb (fst x) pb) l).
 Definition res_bus_p (n : net) (ref : list nat) (vs : list Q) (ss : list C) (pb : nat) : Q :=
-  let lo := filter (fun l => Nat.eqb (l_pbus l) pb) (loads n) in
-  let pq := filter (fun e => Nat.eqb (e_pbus e) pb) (pqs n) in
-  let sh := filter (fun s => Nat.eqb (s_pbus s) pb) (shunts n) in
-  let ge := filter (fun g => Nat.eqb (g_pbus g) pb) (gens n) in
-  qsub (qadd (qadd (sumf (fun l => res_load_p n l (vof vs (l_bus l))) lo)
-                   (sumf (fun e => qmul (pq_sign e) (res_pq_p e)) pq))
-             (sumf (fun s => res_sh_p s (vof vs (s_bus s))) sh))
-       (sumf (fun g => pg_after n ref g (sof ss (g_bus g))) ge).
+  qsub (sum_group pb (stack_p n vs))
+       (sum_group pb (map (fun g => (g_pbus g, pg_after n ref g (sof ss (g_bus g)))) (gens n))).
 Definition res_bus_q (n : net) (vs : list Q) (ss : list C) (pb : nat) : Q :=
-  let lo := filter (fun l => Nat.eqb (l_pbus l) pb) (loads n) in
-  let pq := filter (fun e => Nat.eqb (e_pbus e) pb) (pqs n) in
-  let sh := filter (fun s => Nat.eqb (s_pbus s) pb) (shunts n) in
-  let ge := filter (fun g => Nat.eqb (g_pbus g) pb) (gens n) in
-  qsub (qadd (qadd (sumf (fun l => res_load_q n l (vof vs (l_bus l))) lo)
-                   (sumf (fun e => qmul (pq_sign e) (res_pq_q e)) pq))
-             (sumf (fun s => res_sh_q s (vof vs (s_bus s))) sh))
-       (sumf (fun g => qg_after_val n g (sof ss (g_bus g))) ge).
+  qsub (sum_group pb (stack_q n vs))
+       (sum_group pb (map (fun g => (g_pbus g, qg_after_val n g (sof ss (g_bus g)))) (gens n))).
+(* with dclines (results_gen.py:41-45): the two auxiliary gens of every dcline are rows of net.gen while the results are
+   extracted (so they are in [gens n], PG = -p_from / -p_to), and res_dcline.p_from_mw/p_to_mw (= -PG of those rows) are
+   stacked into the *generation* sum as well: the dcline cancels out of res_bus.  [dcl] = (terminal bus, terminal power). *)
+Definition res_bus_p_dcl (n : net) (ref : list nat) (vs : list Q) (ss : list C) (dcl : list (nat * Q)) (pb : nat) : Q :=
+  qsub (res_bus_p n ref vs ss pb) (sum_group pb dcl).
+Definition res_bus_q_dcl (n : net) (vs : list Q) (ss : list C) (dcl : list (nat * Q)) (pb : nat) : Q :=
+  qsub (res_bus_q n vs ss pb) (sum_group pb dcl).
+Definition G01dcl (dcl : list (nat * Q)) (pb : nat) : bool := qeqb (sum_group pb dcl) 0.
+
+(* spec: net consumption reported by the element result tables at pandapower bus pb *)
+Definition net_cons_p (n : net) (ref : list nat) (vs : list Q) (ss : list C) (pb : nat) : Q :=
+  qsub (qadd (qadd (sumf (fun l => res_load_p n l (vof vs (l_bus l))) (filter (fun l => Nat.eqb (l_pbus l) pb) (loads n)))
+                   (sumf (fun e => qmul (pq_sign e) (res_pq_p e)) (filter (fun e => Nat.eqb (e_pbus e) pb) (pqs n))))
+             (sumf (fun s => res_sh_p s (vof vs (s_bus s))) (filter (fun s => Nat.eqb (s_pbus s) pb) (shunts n))))
+       (sumf (fun g => pg_after n ref g (sof ss (g_bus g))) (filter (fun g => Nat.eqb (g_pbus g) pb) (gens n))).
+Definition net_cons_q (n : net) (vs : list Q) (ss : list C) (pb : nat) : Q :=
+  qsub (qadd (qadd (sumf (fun l => res_load_q n l (vof vs (l_bus l))) (filter (fun l => Nat.eqb (l_pbus l) pb) (loads n)))
+                   (sumf (fun e => qmul (pq_sign e) (res_pq_q e)) (filter (fun e => Nat.eqb (e_pbus e) pb) (pqs n))))
+             (sumf (fun s => res_sh_q s (vof vs (s_bus s))) (filter (fun s => Nat.eqb (s_pbus s) pb) (shunts n))))
+       (sumf (fun g => qg_after_val n g (sof ss (g_bus g))) (filter (fun g => Nat.eqb (g_pbus g) pb) (gens n))).
 
 (* ---------- spec side: what the result tables report at ppc bus k *)
 (* consumption reported by the bus elements (loads, pq elements with sign, shunt-like) *)
@@ -242,17 +275,21 @@ Definition sum_qcz (n : net) (k : nat) : Q := sumf (fun l => qmul (act_q l) (pct
 
 (* size of the ZIP-averaging defect at k (zero when G01 holds) *)
 Definition zipdef_p (n : net) (k : nat) (v : Q) : Q :=
+  if negb (vdl n) then 0 else
   let z := zip_row n k in
   qadd (qmul (qsub v 1) (qsub (qmul (PD n k) (z_cip z)) (sum_pci n k)))
        (qmul (qsub (qmul v v) 1) (qsub (qmul (PD n k) (z_czp z)) (sum_pcz n k))).
 Definition zipdef_q (n : net) (k : nat) (v : Q) : Q :=
+  if negb (vdl n) then 0 else
   let z := zip_row n k in
   qadd (qmul (qsub v 1) (qsub (qmul (QD n k) (z_ciq z)) (sum_qci n k)))
        (qmul (qsub (qmul v v) 1) (qsub (qmul (QD n k) (z_czq z)) (sum_qcz n k))).
 (* size of the defect at generator buses: _update_p/_update_q add the *static* PD/QD *)
 Definition gendef_p (n : net) (k : nat) (v : Q) : Q :=
+  if negb (vdl n) then 0 else
   qadd (qmul (qsub v 1) (sum_pci n k)) (qmul (qsub (qmul v v) 1) (sum_pcz n k)).
 Definition gendef_q (n : net) (k : nat) (v : Q) : Q :=
+  if negb (vdl n) then 0 else
   qadd (qmul (qsub v 1) (sum_qci n k)) (qmul (qsub (qmul v v) 1) (sum_qcz n k)).
 (* what the proportional Q split loses through the EPS in its denominator *)
 Definition qsplit_loss (n : net) (k : nat) (sinj : C) : Q :=
@@ -281,6 +318,24 @@ Definition has_gen (n : net) (k : nat) : bool := negb (Nat.eqb (length (gens_on_
 Definition split_ok (n : net) (k : nat) : bool :=
   let G := gens_on_at n k in Nat.eqb (length G) 1 || (Nat.ltb 1 (length G) && existsb g_ref G).
 
+(* ---------- DC power flow (pf/run_dc_pf.py:75-105, results as above with ac = False) *)
+(* Pbus = real(makeSbus) - Pbusinj - GS/baseMVA: the bus shunt conductance enters at unit voltage, while
+   _get_shunt_results scales the reported shunt / ward power with VM^2, VM = the value left in ppc["bus"][:, VM]
+   (1.0, or the vm_pu setpoint at ext_grid / gen buses).  [gsum] = generation reported at the bus, [pinj] = (Bbus*Va)_k. *)
+Definition dc_cons_p (n : net) (k : nat) (v : Q) : Q :=
+  qadd (qadd (sumf act_p (loads_at n k)) (sumf (fun e => qmul (pq_sign e) (res_pq_p e)) (pqs_at n k)))
+       (sumf (fun s => res_sh_p s v) (shunts_at n k)).
+(* (Bbus*Va)_k is the sum of the DC branch flows leaving k; the bus shunt is not part of Bbus *)
+Definition dc_flows (n : net) (k : nat) (pinj : Q) : Q := qmul pinj (base n).
+Definition dc_mism (n : net) (k : nat) (pinj gsum : Q) : Q :=
+  qsub (qmul pinj (base n)) (qsub (qsub gsum (PD n k)) (GS n k)).
+Definition dc_resid_p (n : net) (k : nat) (v pinj gsum : Q) : Q :=
+  qadd (qsub (dc_cons_p n k v) gsum) (dc_flows n k pinj).
+Definition dcdef_p (n : net) (k : nat) (v : Q) : Q := qmul (qsub (qmul v v) 1) (GS n k).
+Definition G01dc (n : net) (k : nat) (v : Q) : bool := qeqb (GS n k) 0 || qeqb (qmul v v) 1.
+Definition run_dc (n : net) (vs : list Q) (nb : nat) : out :=
+  OL (map (fun k => OL [oq (PD n k); oq (GS n k); oq (dcdef_p n k (vof vs k)); OB (G01dc n k (vof vs k))]) (seq 0 nb)).
+
 (* ---------- run wrappers (correspondence) *)
 Definition run_busrow (n : net) (k : nat) : out :=
   let z := zip_row n k in
@@ -292,12 +347,12 @@ Definition run_res (n : net) (vs : list Q) : out :=
        OL (map (fun s => OL [oq (res_sh_p s (vof vs (s_bus s))); oq (res_sh_q s (vof vs (s_bus s)))]) (shunts n)) ].
 Definition run_gens (n : net) (ref : list nat) (ss : list C) : out :=
   OL (map (fun g => OL [oq (pg_after n ref g (sof ss (g_bus g))); ooq (qg_after n g (sof ss (g_bus g)))]) (gens n)).
-Definition run_resbus (n : net) (ref : list nat) (vs : list Q) (ss : list C) (pbs : list nat) : out :=
-  OL (map (fun pb => OL [oq (res_bus_p n ref vs ss pb); oq (res_bus_q n vs ss pb)]) pbs).
+Definition run_resbus (n : net) (ref : list nat) (vs : list Q) (ss : list C) (dclp dclq : list (nat * Q)) (pbs : list nat) : out :=
+  OL (map (fun pb => OL [oq (res_bus_p_dcl n ref vs ss dclp pb); oq (res_bus_q_dcl n vs ss dclq pb)]) pbs).
 (* predicted nodal residual per ppc bus from the injections (flows derived from Sinj and the bus shunt) *)
 Definition run_resid (n : net) (ref : list nat) (vs : list Q) (ss : list C) (nb : nat) : out :=
   OL (map (fun k => let v := vof vs k in let s := sof ss k in let f := flows n k v s in
                     OL [oq (resid_p n ref k v s f); oq (resid_q n k v s f); oc f;
                         OB (G01p n k); OB (G01q n k); OB (G01gp n k); OB (G01gq n k)]) (seq 0 nb)).
-Definition run_all (n : net) (ref : list nat) (vs : list Q) (ss : list C) (nb : nat) (pbs : list nat) : out :=
-  OL [run_busrows n nb; run_res n vs; run_gens n ref ss; run_resbus n ref vs ss pbs; run_resid n ref vs ss nb].
+Definition run_all (n : net) (ref : list nat) (vs : list Q) (ss : list C) (nb : nat) (dclp dclq : list (nat * Q)) (pbs : list nat) : out :=
+  OL [run_busrows n nb; run_res n vs; run_gens n ref ss; run_resbus n ref vs ss dclp dclq pbs; run_resid n ref vs ss nb].
